@@ -46,6 +46,7 @@ CONTRACTS = {
             "C16.W4 next alarm is the next grid point whatever the body took": "implies(old(h) is not None, h is not None and h.alarm == t0 + (k + 1) * P)",
             "C16.W5 after free() wait returns immediately and touches nothing": "implies(old(h) is None, g_now == old(g_now) and h is None and self._expiry_time == old(self._expiry_time))",
             "grid origin fixed": "t0 == old(t0) and P == old(P)",
+            "k counts the completed waits": "k == (old(k) + 1 if old(h) is not None else old(k)) and (h is None) == (old(h) is None)",
         },
     },
     "NotifierDelay.free": {
